@@ -16,8 +16,9 @@ TRANSFORMS = [
     "return type `-> T` rewritten to `-> (name: T)` when the contract names the result",
     "function renamed only when the template asks for it with `as <name>` (used to place two cfg arms side by side)",
     "`debug_assert!(e);` and `assert!(e);` -> `assert(e);` (Verus spelling: the run-time check becomes the proof obligation that the panic is unreachable under the contract's precondition)",
-    "items (struct/const/type): attributes dropped except that `#[derive(.. Clone, Copy ..)]` is re-emitted as `#[derive(Clone, Copy)]`, visibility normalised to `pub`; with option `limbs`, a const initialised by `T::w64be(l3,l2,l1,l0)` / `T::w64le(l0,l1,l2,l3)` with four literal limbs is rewritten to the tuple-struct literal `GF255([l0,l1,l2,l3])` (w64be/w64le are proved in the same unit to build exactly that array)",
+    "items (struct/const/type): attributes dropped except that `#[derive(.. Clone, Copy ..)]` is re-emitted as `#[derive(Clone, Copy)]`, visibility normalised to `pub`; with option `pubfields` private struct fields are declared `pub` (a datatype with private fields is opaque to Verus specifications); with option `w64args` a const initialised by `T::w64be(..)`/`w64le(..)` with four literal limbs is emitted as an opaque constant (compile-time Montgomery conversion) together with a generated spec function `<NAME>_w64()` holding the integer those literals denote; with option `limbs`, a const initialised by `T::w64be(l3,l2,l1,l0)` / `T::w64le(l0,l1,l2,l3)` with four literal limbs is rewritten to the tuple-struct literal `GF255([l0,l1,l2,l3])` (w64be/w64le are proved in the same unit to build exactly that array)",
     "anonymous loop pattern: `for _ in <range>` -> `for vloop<k> in <range>` (k-th such loop of the function) so that a loop invariant can name the counter",
+    "only with option `lebytes` (this Verus cannot attach a specification to the std byte-order conversions, whose signatures use the const expression `[u8; size_of::<T>()]`): `<int>::from_le_bytes(` -> `<int>_from_le_bytes(`, `<int>::from_be_bytes(` -> `<int>_from_be_bytes(` (int in u16/u32/u64/u128), and the method calls `.to_le_bytes()` / `.to_be_bytes()` -> `.vto_le_bytes()` / `.vto_be_bytes()`; the twins are declared in contracts/spec/lebytes_decl.vrs with the std semantics as ASSUMED contracts (trusted: std)",
     "only with option `revloops=<T>` (this Verus has no specification for Rev<Range>): `for v in (a..b).rev() {` -> `let mut vrev<k>: T = b; while vrev<k> > a { vrev<k> = vrev<k> - 1; let v = vrev<k>;` (k-th such loop; a, b are the literal or identifier bounds as written; the loop body is unchanged; same iteration sequence b-1, b-2, .., a)",
 ]
 
@@ -440,7 +441,7 @@ class Woven:
         self.name = name
 
 
-def normalise_fn(fn_src, cfg, rename=None, ret_name=None, debug_assert_verus=True, vis="pub ", revloops=None):
+def normalise_fn(fn_src, cfg, rename=None, ret_name=None, debug_assert_verus=True, vis="pub ", revloops=None, lebytes=False):
     """Apply the TRANSFORMS to a raw fn slice; returns (text, undo) where undo
     is info the erasure check needs."""
     s = resolve_cfg(fn_src, cfg)
@@ -487,6 +488,9 @@ def normalise_fn(fn_src, cfg, rename=None, ret_name=None, debug_assert_verus=Tru
         cnt[0] += 1
         return "for vloop%d in" % (cnt[0] - 1)
     s = re.sub(r'\bfor\s+_\s+in\b', _nm, s)
+    if lebytes:
+        s = re.sub(r'\b(u16|u32|u64|u128)\s*::\s*from_(le|be)_bytes\s*\(', r'\1_from_\2_bytes(', s)
+        s = re.sub(r'\.\s*to_(le|be)_bytes\s*\(', r'.vto_\1_bytes(', s)
     if revloops:
         rc = [0]
         def _rv(m):
@@ -504,7 +508,7 @@ def erase_tokens(fn_text):
     return [t.text for t in tokenize('\n'.join(lines))]
 
 
-def source_tokens(fn_src, cfg, rename=None, ret_name=None, debug_assert_verus=True, vis="pub ", revloops=None):
+def source_tokens(fn_src, cfg, rename=None, ret_name=None, debug_assert_verus=True, vis="pub ", revloops=None, lebytes=False):
     """Tokens the erasure check expects: the raw slice with the documented
     transformations applied mechanically *on tokens* (independent code path
     from normalise_fn's text surgery)."""
@@ -539,6 +543,21 @@ def source_tokens(fn_src, cfg, rename=None, ret_name=None, debug_assert_verus=Tr
         if toks[i] == 'for' and toks[i + 1] == '_' and toks[i + 2] == 'in':
             toks[i + 1] = 'vloop%d' % k
             k += 1
+    if lebytes:
+        out = []
+        i = 0
+        while i < len(toks):
+            if (toks[i] in ('u16', 'u32', 'u64', 'u128') and i + 2 < len(toks) and toks[i + 1] == '::'
+                    and toks[i + 2] in ('from_le_bytes', 'from_be_bytes')):
+                out.append(toks[i] + '_' + toks[i + 2])
+                i += 3
+            elif toks[i] == '.' and i + 1 < len(toks) and toks[i + 1] in ('to_le_bytes', 'to_be_bytes'):
+                out += ['.', 'v' + toks[i + 1]]
+                i += 2
+            else:
+                out.append(toks[i])
+                i += 1
+        toks = out
     if revloops:
         out = []
         i = 0
